@@ -96,7 +96,7 @@ META = {
             "every reader sees exactly the acknowledged state and no cleanup is acknowledged under a running node (folder_model_meets_spec, import_restart_op_shutdown, clean_guarded; refuted: unguarded_clean_fails, stale_import_fails); with Raft terms and indexes in the folder model "
             "(Model/C01FolderTerm) the shutdown snapshot is the folder's newest one iff its (term, index) is at or above the newest one there, i.e. iff its term is at least the imported one's "
             "(shutdown_snapshot_newest_iff, shutdown_snapshot_newest_iff_term), so for EVERY folder whose newest snapshot has term >= 2 an import over it hides every operation acknowledged afterwards from the offline read "
-            "(kept_import_hides_later_ops = K01e; k01e_predicted_by_term_model: the model yields exactly the real observations), and the repair that writes term 1 / index 2 does not (fixed_import_shutdown_exact). The full-strength statements are refuted by "
+            "(kept_import_hides_later_ops = K01e; k01e_predicted_by_term_model: the model yields exactly the real observations), and the repair that writes term 1 / index 2 does not (fixed_import_shutdown_exact); on EVERY history without a metadata-keeping import the term-aware folder yields exactly the observations of the intended one and no clean shutdown leaves a stale snapshot (term_model_refines_intended, no_stale_shutdown_without_kept_import: simulation relation Sim, induction over the step list). The full-strength statements are refuted by "
             "kernel-checked witnesses where the code really breaks them (prefix_inv_fails / some_prefix_fails: go-libp2p-raft snapshots are not point-in-time, K09; "
             "decode_total_fails / caught_up_exact_fails: raw log entries with origins, no longer reachable through commit). The model is tied to the code by driving the real FSM (and, thorough, real Raft "
             "nodes incl. SIGKILL and InstallSnapshot) with seeded event scripts and, in both tiers, one real Raft node shut down with live / deadline-bound / expired / cancelled contexts whose data folder is then read offline) plus the data-folder tools on a real node's folder (suite fold) and comparing every observation with the model, and the Spec clauses are evaluated on the implementation's observations.",
